@@ -284,6 +284,68 @@ def cDtorExportName (module name : List Char) : List Char :=
 end Witverif.Abi.CProfile
 
 namespace Witverif.Abi.CProfileSpec
+open Witverif.Abi Witverif.Abi.CProfile
+
+mutual
+/-- the memory a value owns: `(pointer, length)` of the buffer of every string, list and map reachable
+in the value of type `t` stored at `a` whose length is not zero (buffer first, then what its elements own) -/
+def ownedBuffers (p : Nat) (m : Spec.Mem) : Ty → Nat → List (Nat × Nat)
+  | .string, a => if m.loadLE (a + p) p > 0 then [(m.loadLE a p, m.loadLE (a + p) p)] else []
+  | .list e, a =>
+      let ptr := m.loadLE a p
+      let n := m.loadLE (a + p) p
+      if n > 0 then (ptr, n) :: freesMany (ownedBuffers p m e) (elemSize p e) ptr n else []
+  | .map k v, a =>
+      let ptr := m.loadLE a p
+      let n := m.loadLE (a + p) p
+      let esz := elemSize p (.tuple [k, v])
+      let vo := alignTo (elemSize p k) (alignment p v)
+      if n > 0 then (ptr, n) :: freesMany (fun x => ownedBuffers p m k x ++ ownedBuffers p m v (x + vo)) esz ptr n else []
+  | .record fs, a => ownedBuffersFields p m fs a 0
+  | .tuple ts, a => ownedBuffersFields p m ts a 0
+  | .variant cs, a =>
+      let tag := discriminant cs.length
+      ownedBuffersCase p m cs (m.loadLE a tag.size) (a + payloadOffset p tag cs)
+  | .option t, a =>
+      if m.loadLE a 1 != 0 then ownedBuffers p m t (a + payloadOffset p .u8 [none, some t]) else []
+  | .result ok err, a =>
+      let po := a + payloadOffset p .u8 [ok, err]
+      if m.loadLE a 1 == 0 then ownedBuffersOpt p m ok po else ownedBuffersOpt p m err po
+  | _, _ => []
+def ownedBuffersFields (p : Nat) (m : Spec.Mem) : List Ty → Nat → Nat → List (Nat × Nat)
+  | [], _, _ => []
+  | t :: ts, a, cur =>
+      let o := alignTo cur (alignment p t)
+      ownedBuffers p m t (a + o) ++ ownedBuffersFields p m ts a (o + elemSize p t)
+def ownedBuffersOpt (p : Nat) (m : Spec.Mem) : Option Ty → Nat → List (Nat × Nat)
+  | none, _ => []
+  | some t, a => ownedBuffers p m t a
+def ownedBuffersCase (p : Nat) (m : Spec.Mem) : List (Option Ty) → Nat → Nat → List (Nat × Nat)
+  | [], _, _ => []
+  | c :: _, 0, a => ownedBuffersOpt p m c a
+  | _ :: cs, i + 1, a => ownedBuffersCase p m cs i a
+end
+
+mutual
+/-- no member (field, element, payload) of `t`, at any depth, has a shared anonymous type -/
+def noSharedMember : Ty → Bool
+  | .list e | .option e => !isSharedAnon e && noSharedMember e
+  | .map k v => !isSharedAnon k && !isSharedAnon v && noSharedMember k && noSharedMember v
+  | .record fs | .tuple fs => noSharedMembers fs
+  | .variant cs => noSharedCases cs
+  | .result a b => noSharedOpt a && noSharedOpt b
+  | _ => true
+def noSharedMembers : List Ty → Bool
+  | [] => true
+  | t :: ts => !isSharedAnon t && noSharedMember t && noSharedMembers ts
+def noSharedOpt : Option Ty → Bool
+  | none => true
+  | some t => !isSharedAnon t && noSharedMember t
+def noSharedCases : List (Option Ty) → Bool
+  | [] => true
+  | c :: cs => noSharedOpt c && noSharedCases cs
+end
+
 /-- legacy core export name of a resource destructor (`Resolve::wasm_export_name`,
 `WasmExport::ResourceDtor`): the resource's WIT name verbatim -/
 def dtorExportName (module name : List Char) : List Char := module ++ "#[dtor]".toList ++ name
